@@ -130,6 +130,9 @@ def check(mod, tier: str, seed: int, *, replay: str | None = None, report_as: st
             mc_futs = [mc_pool.submit(tlc.model_check, e[0], e[1], workers=e[2], tag=f"{pid}-{e[0]}-{e[1]}-{k}",
                                       env=(e[3] if len(e) > 3 else None))
                        for k, e in enumerate(mod.MC[tier])]
+            # inductive invariants (Apalache): unbounded-depth statements about a typed copy of a state machine
+            ind_futs = [mc_pool.submit(tlc.apalache_check, e["module"], init=e["init"], inv=e["inv"], length=e["length"],
+                                       cinit=e.get("cinit")) for e in getattr(mod, "INDUCTIVE", {}).get(tier, [])]
         # ---------------------------------------------------------------- executions (G) + (T)
         if replay is None:
             cases = mod.cases(tier, seed)
@@ -151,8 +154,12 @@ def check(mod, tier: str, seed: int, *, replay: str | None = None, report_as: st
         if replay is None:
             for f in mc_futs:
                 mc_results.append(f.result())
+            ind_results = [f.result() for f in ind_futs]
             mc_pool.shutdown()
+        else:
+            ind_results = []
         bad_mc = [r for r in mc_results if not r["ok"]]
+        bad_mc += [dict(r, cfg=f"{r['init']}/{r['inv']}", violated="inductive invariant check failed") for r in ind_results if not r["ok"]]
         # ---------------------------------------------------------------- classify
         by_tid: dict[int, list] = {}
         for tid, l, clause in verdict["fails"]:
@@ -246,6 +253,7 @@ def check(mod, tier: str, seed: int, *, replay: str | None = None, report_as: st
                                      "tlc_states": verdict["tlc_states"], "wall_s": verdict["wall_s"],
                                      "rejected_records": len(by_tid), "seen": sorted(verdict.get("seen", [])),
                                      "coverage_missing": missing},
+                "inductive_checks": [{k: r[k] for k in ("module", "init", "inv", "length", "ok", "wall_s")} for r in ind_results],
                 "known_findings_matched": known_hit,
                 "exhaustive": bool(getattr(mod, "EXHAUSTIVE", {}).get(tier, False)),
             },
